@@ -28,6 +28,7 @@ import (
 
 	"github.com/openbao/openbao/sdk/v2/helper/verif/vout"
 	"github.com/openbao/openbao/sdk/v2/logical"
+	"github.com/openbao/openbao/v2/internal/vault"
 )
 
 const c06Policy = `
@@ -259,6 +260,85 @@ func trackingInvariantOpt(s *Sys, checkIndex bool) string {
 	return ""
 }
 
+// c06Usable presents a token in the namespace it was minted in.
+func c06Usable(s *Sys, kind c06Kind, tok string) bool {
+	if strings.HasPrefix(kind.Name, "ns:") {
+		resp, err := s.ReqNS(c06NS, tok, logical.ReadOperation, "auth/token/lookup-self", nil)
+		return OK(resp, err)
+	}
+	return s.Usable(tok)
+}
+
+// c06IndexWorks: "its token index entry exists" judged by what the entry is for: revoking
+// the token that requested the secret revokes the secret at its backend. Only for requesters
+// the harness can revoke (service tokens); returns "" when it held or does not apply.
+func c06IndexWorks(s *Sys, kind c06Kind, tok, secretID string) string {
+	if kind.Wrap || secretID == "" {
+		return ""
+	}
+	var resp *logical.Response
+	var err error
+	switch kind.Name {
+	case "secret", "xns:secret":
+		resp, err = s.Req(s.Root, logical.UpdateOperation, "auth/token/revoke", map[string]interface{}{"token": tok})
+	case "ns:secret":
+		resp, err = s.ReqNS(c06NS, s.Root, logical.UpdateOperation, "auth/token/revoke", map[string]interface{}{"token": c06NSTok[s.Opt.NonTxn]})
+	default:
+		return ""
+	}
+	if !OK(resp, err) {
+		return ""
+	}
+	s.Drain()
+	if s.Rec.RevokedCount(secretID) == 0 {
+		return fmt.Sprintf("the client holds secret %s; its requesting token was then revoked successfully, but the secret was never revoked at its backend: the lease is not indexed under the token that requested it", secretID)
+	}
+	return ""
+}
+
+// c06UsableDuringRestore starts a new process on the store content with the lease restore
+// pinned at one (unrelated) lease record, so that the expiration manager is still in
+// restore mode, and presents the token. pinned=false: no restore worker read that record
+// (nothing judged).
+func c06UsableDuringRestore(t *testing.T, s *Sys, kind c06Kind, holdKey, tok string) (usable, pinned bool) {
+	img2 := s.Image()
+	s2, err := BootSealed(t, img2.Data, img2)
+	if err != nil {
+		t.Fatalf("harness: %v", err)
+	}
+	defer s2.Close()
+	release := s2.Phys.HoldGets(holdKey)
+	defer release()
+	for _, k := range img2.Keys {
+		if _, uerr := vault.TestCoreUnseal(s2.Core, vault.TestKeyCopy(k)); uerr != nil {
+			t.Fatalf("harness: unseal: %v", uerr)
+		}
+	}
+	s2.hookExpiry()
+	for t0 := time.Now(); time.Since(t0) < 20*time.Second; time.Sleep(200 * time.Microsecond) {
+		if s2.Phys.Held() > 0 {
+			pinned = true
+			break
+		}
+		if s2.Core.VerifExpiration().VerifRestoreDone() {
+			break
+		}
+	}
+	if !pinned {
+		return false, false
+	}
+	done := make(chan bool, 1)
+	go func() { done <- c06Usable(s2, kind, tok) }()
+	select {
+	case usable = <-done:
+	case <-time.After(20 * time.Second):
+		// the request waits for the restore: nothing was accepted while restoring
+	}
+	release()
+	s2.settle()
+	return usable, true
+}
+
 // c06PartX: the client goes away (its request context is cancelled) while the backend is
 // generating the leased secret. Whatever happens next, the two outcomes of the statement
 // are the only ones: the client holds the secret and a lease + index exist, or the client
@@ -389,6 +469,9 @@ func TestVerifC06(t *testing.T) {
 				res.Violate("c06:tracking", fmt.Sprintf("%s fault-free: %s", label, msg), map[string]interface{}{"kind": kind, "nonTxn": nonTxn, "k": 0})
 			}
 			tok0 := o0.token // deterministic randomness: the same id is generated in every pass
+			if msg := c06IndexWorks(s0, kind, tok, o0.secretID); msg != "" {
+				res.Violate("c06:lease-not-indexed-under-requesting-token", fmt.Sprintf("%s fault-free: %s", label, msg), map[string]interface{}{"kind": kind, "nonTxn": nonTxn, "k": 0})
+			}
 			s0.Close()
 			res.Max("ops_in_request", int64(nops))
 			_ = tk0
@@ -424,6 +507,9 @@ func TestVerifC06(t *testing.T) {
 					if strings.Contains(kind.Name, "secret") && !kind.Wrap && len(idxA) <= len(idxB) {
 						res.Violate("c06:fault:secret-without-index", fmt.Sprintf("%s, op %d [%s] failed: the client received the secret but the token->lease index entry is missing", label, k, what), rp)
 					}
+					if msg := c06IndexWorks(s, kind, tok, o.secretID); msg != "" {
+						res.Violate("c06:fault:lease-not-indexed-under-requesting-token", fmt.Sprintf("%s, op %d [%s] failed: %s", label, k, what, msg), rp)
+					}
 				} else if k > regEnd {
 					res.Add("faults_after_completed_registration", 1)
 				} else {
@@ -440,8 +526,20 @@ func TestVerifC06(t *testing.T) {
 							res.Violate("c06:fault:partial-lease-records", fmt.Sprintf("%s, op %d [%s] failed: the client got an error but lease/index records remain: %v %v", label, k, what, extra, extraIdx), rp)
 						}
 					}
-					if tok0 != "" && !strings.Contains(kind.Name, "secret") && kind.Name != "create-batch" && s.Usable(tok0) {
-						res.Violate("c06:fault:usable-token-after-error", fmt.Sprintf("%s, op %d [%s] failed: the client got an error but the token minted by the request is usable", label, k, what), rp)
+					if tok0 != "" && !strings.Contains(kind.Name, "secret") && kind.Name != "create-batch" {
+						if c06Usable(s, kind, tok0) {
+							res.Violate("c06:fault:usable-token-after-error", fmt.Sprintf("%s, op %d [%s] failed: the client got an error but the token minted by the request is usable", label, k, what), rp)
+						} else if len(idsB) > 0 {
+							// ... and it stays unusable on a restarted node whose lease restore is still
+							// running (pinned at an unrelated lease record)
+							usable, pinned := c06UsableDuringRestore(t, s, kind, expirePhysKey(idsB[0]), tok0)
+							if pinned {
+								res.Add("restore_window_probes", 1)
+							}
+							if usable {
+								res.Violate("c06:fault:usable-token-after-error:during-lease-restore", fmt.Sprintf("%s, op %d [%s] failed: the client got an error; after a restart, while the lease restore is still running, the token minted by the failed request is accepted", label, k, what), rp)
+							}
+						}
 					}
 				}
 				if msg := trackingInvariant(s); msg != "" && failed != nil {
